@@ -11,13 +11,15 @@ EXPLANATION = (
     "Rule.activate_with (weight x antecedent), Rule.trigger (enabled guard), Consequent.modify (one Activated per "
     "enabled conclusion, own variable/term/implication), Activated.membership, Aggregated.membership (fold seeded with "
     "0), OutputVariable.defuzzify arguments, Antecedent.activation_degree (path-sensitive abstract interpretation of "
-    "the 7 dispatch cases), Aggregated.activation_degree lookup"
+    "the 7 dispatch cases), Aggregated.activation_degree lookup; the three operators of the block reach activate_with / trigger under "
+    "every activation method (P2 x 7); who-may-call: only Rule.trigger (or a caller guarded by the rule's enabled flag) modifies a consequent"
 )
 ASSUMPTIONS = ["decides how the stages are connected on every path; the numeric values of the stages are not decided"]
 FLOORS = {"P1": 3, "P2": 21, "G": 1, "O-dea": 1, "O-seq": 1, "P3": 3, "P4": 3, "P5": 5, "P6": 2, "P7": 3, "P8": 3, "P9": 7, "P10": 2}
 
 
 def run(check: Check) -> None:
+    wiring.p4_who_modifies(check)
     wiring.p1_process_phases(check)
     a = c08.Activate(check, "General")
     c08.common_rules(a)
